@@ -41,9 +41,12 @@
 (*  - removing a publisher only stages withdraws; its (emptied) entry      *)
 (*    and its staged elements survive, a re-added publisher continues      *)
 (*    from them;                                                           *)
-(*  - "keep == max_nr - 1" in find_deltas_truncate_age is an equality      *)
-(*    test: once min_nr or the age rule pushed keep past it, the number    *)
-(*    limit is never applied (see DeltasBounded);                          *)
+(*  - find_deltas_truncate_age used to test "keep == max_nr - 1": once     *)
+(*    min_nr or the age rule had pushed keep past it, the number limit was *)
+(*    never applied (MaxNrEquality = TRUE; repaired by 3d66903f into       *)
+(*    "keep + 1 >= max_nr", MaxNrEquality = FALSE);                        *)
+(*  - the "always keep" rules (min_nr, min_seconds) have precedence over   *)
+(*    max_nr (see DeltasBounded / DeltasNeverExceedMaxNr);                 *)
 (*  - the min_nr rule keeps min_nr old deltas plus the new one.            *)
 (***************************************************************************)
 EXTENDS Naturals, Sequences, FiniteSets, TLC
@@ -62,7 +65,7 @@ CONSTANTS
                 \* "zero": every existing delta is old
                 \* "any" : some oldest deltas are old (environment's choice)
     MaxNrEquality, \* TRUE: the number limit is tested as "keep == max_nr - 1"
-                \*   (as coded, rrdp.rs:440); FALSE: "keep >= max_nr - 1"
+                \*   (pinned tree, rrdp.rs:440); FALSE: "keep + 1 >= max_nr" (3d66903f)
     MaxSerial,  \* model bound on serial
     MaxSession, \* model bound on session resets
     DeltaChoices \* the deltas the environment sends (subset of Deltas)
@@ -272,7 +275,7 @@ RECURSIVE AgeKeep(_, _, _, _)
 AgeKeep(i, keep, y, o) ==
     IF i > Len(deltas) THEN keep
     ELSE IF keep < MinNr \/ i <= y THEN AgeKeep(i + 1, keep + 1, y, o)
-    ELSE IF (IF MaxNrEquality THEN keep = MaxNr - 1 ELSE keep >= MaxNr - 1)
+    ELSE IF (IF MaxNrEquality THEN keep = MaxNr - 1 ELSE keep + 1 >= MaxNr)
             \/ i >= o THEN keep
     ELSE AgeKeep(i + 1, keep + 1, y, o)
 
@@ -443,6 +446,10 @@ DeltasContiguousToCurrent ==
 \* are counted only when MinAge # "zero" (then all may be young: no bound).
 DeltasBounded ==
     MinAge = "zero" => Len(deltas) <= (IF MaxNr > MinNr + 1 THEN MaxNr ELSE MinNr + 1)
+
+\* The literal reading of the statement, without that precedence: it holds
+\* iff the configuration lets max_nr win (min_nr < max_nr, nothing young).
+DeltasNeverExceedMaxNr == Len(deltas) <= MaxNr
 
 \* every invariant of C10 except IsolationPublished
 Inv10 ==
